@@ -1,4 +1,4 @@
-CONSTANTS Size = 4  MaxOuters = 2  MaxInners = 2
+CONSTANTS Size = 4  MaxOuters = 2  MaxInners = 2  CatSel = {1, 2, 3, 4, 5, 6, 7, 8}
 SPECIFICATION Spec
 INVARIANTS RegularRight Conserves Emit
 CHECK_DEADLOCK FALSE
